@@ -101,11 +101,12 @@ func (d *Drv) checkStats() {
 	if sumA != m.NAlive || sumT != m.NAlive {
 		d.viol("C19", "stats-sums", "sum of archetype sizes %d / table sizes %d, model alive %d", sumA, sumT, m.NAlive)
 	}
-	if s.MemoryUsed != memUsedA+s.Entities.Used*16 {
-		d.viol("C19", "stats-world-memused", "World.MemoryUsed=%d != archetypes %d + %d entities x 16", s.MemoryUsed, memUsedA, s.Entities.Used)
+	// the world figures add entity bookkeeping (whose layout is not documented) to the archetype sums
+	if s.MemoryUsed < memUsedA || s.MemoryUsed > s.Memory {
+		d.viol("C19", "stats-world-memused", "World.MemoryUsed=%d, archetypes sum %d, World.Memory %d", s.MemoryUsed, memUsedA, s.Memory)
 	}
-	if s.Memory < memA+s.Entities.Capacity*8 {
-		d.viol("C19", "stats-world-memory", "World.Memory=%d below archetypes %d + pool capacity %d x 8", s.Memory, memA, s.Entities.Capacity)
+	if s.Memory < memA {
+		d.viol("C19", "stats-world-memory", "World.Memory=%d below the archetype sum %d", s.Memory, memA)
 	}
 	nf := 0
 	for i := range m.Filters {
